@@ -305,6 +305,10 @@ def make_function(fun, census=None, history=True):
     return fd
 
 
+SHARED_WHAT = ("a ParameterDefinition object is shared between two FunctionDefinitions derived from the same callable: a later "
+               "registration / strip_hidden_parameters / insert_parameter rewrites the alias or position the other one resolves with")
+
+
 def shared_parameters(census):
     """identity census: ParameterDefinition objects that belong to two different FunctionDefinitions"""
     owner, out = {}, []
@@ -1339,6 +1343,11 @@ def correspond(run, pairs, what_violation, what_prop, judge=None):
             run.cov["skipped"] += 1
             continue
         obs, log = run_call(family, call, ctx)
+        shared = shared_parameters(census)
+        if shared:
+            run.fail("violation", SHARED_WHAT, {"family": family, "call": call, "shared_parameter_objects": shared[:6],
+                                                "required": "every FunctionDefinition owns its ParameterDefinition objects"})
+            continue
         feats = family_features(family, call, obs)
         run.case((family["chain"], call), nontrivial=len(feats) >= 3)
         run.count("outcome:" + (obs[1] if obs[0] == "err" else obs[0]))
